@@ -758,9 +758,62 @@ _INT_FOLD = {"floordiv": lambda a, b: a // b if b else None, "mod": lambda a, b:
              "band": lambda a, b: a & b, "bor": lambda a, b: a | b, "bxor": lambda a, b: a ^ b}
 
 
+_BOOLEAN_FNS = {"eq", "ne", "gt", "ge", "lt", "le", "not", "band", "bor", "bxor", "invert", "isnan", "isfinite", "isinf", "logical_and", "logical_or", "logical_not",
+                "logical_xor", "isclose", "isin"}
+
+
+def is_boolean_form(v):
+    """the value is an array (or scalar) of truth values by construction: a comparison or a logical combination of them"""
+    if not isinstance(v, Form):
+        return False
+    a = v.single_atom()
+    if a is None or a[0] != "fn" or a[1] not in _BOOLEAN_FNS:
+        return False
+    if a[1] in ("band", "bor", "bxor", "invert", "not"):
+        return all(is_boolean_form(x) for x in a[2])
+    return True
+
+
+_INTEGER_SYMS = {"gv.sps", "gv.N"}        # the library's integer globals: samples per slot, number of slots
+
+
+def is_integer_form(v, depth=0):
+    """the value is a whole number by construction: integer-coefficient polynomial in counts, indices, the integer globals and
+    integer quotients / remainders of such"""
+    if not isinstance(v, Form) or depth > 6:
+        return False
+    for m, c in v.terms.items():
+        if c[1] != 0 or c[0].denominator != 1:
+            return False
+        for a, e in m:
+            if not (isinstance(e, int) or getattr(e, "denominator", 0) == 1) or e < 0:
+                return False
+            if a[0] == "sym" and a[1] in _INTEGER_SYMS:
+                continue
+            if a[0] == "fn" and a[1] in ("len", "size", "siglen", "argmin", "argmax", "count_nonzero") and not (a[1] in ("argmin", "argmax") and a[3]):
+                continue
+            if a[0] == "fn" and a[1] == "sum" and len(a[2]) == 1 and not a[3] and is_boolean_form(a[2][0]):
+                continue
+            if a[0] == "fn" and a[1] in ("floordiv", "mod", "min", "max") and not a[3] and all(is_integer_form(x, depth + 1) for x in a[2]):
+                continue
+            if a[0] == "fn" and a[1] == "int" and len(a[2]) == 1:
+                continue
+            return False
+    return True
+
+
 def mk_fn(name, args, kwargs=()):
     args = list(args)
     kwargs = sorted(kwargs, key=lambda kv: kv[0])
+    if name == "count_nonzero" and len(args) == 1 and not kwargs and is_boolean_form(args[0]):
+        name = "sum"               # the number of True entries of a boolean array
+    if name == "int" and len(args) == 1 and not kwargs and isinstance(args[0], Form):
+        a = args[0].single_atom()
+        if is_integer_form(args[0]):
+            return args[0]         # already a whole number: a count, an index, an integer quotient of whole numbers
+    if name in ("fft", "ifft") and kwargs:
+        # the transform acts on the last axis unless told otherwise: an explicit axis=-1 says nothing new
+        kwargs = [(k, v) for k, v in kwargs if not (k == "axis" and isinstance(v, Form) and v.rational() == -1)]
     if name in ("lt", "le") and len(args) == 2 and not kwargs:
         name, args = ("gt" if name == "lt" else "ge"), [args[1], args[0]]
     elif name in ("eq", "ne") and len(args) == 2 and not kwargs:
